@@ -70,6 +70,19 @@ def chk_asym(c):
             _close(A, E, 'bsp_mixed_deriv_biform_1d_asym(du=%d,dv=%d)' % (du, dv))
     A = assemble.bsp_mass_1d_asym(K1, K2).toarray()
     assert A.shape == (K2.numdofs, K1.numdofs)
+    # custom quadrature grids: a sub-range of the mesh (integral over part of the domain; the matrix keeps its documented size
+    # numdofs2 x numdofs1) and a refinement of the mesh (same integral)
+    mesh = np.array(sorted(set(c['kv1'])))
+    ns = len(mesh) - 1
+    for (k0, k1) in {(0, max(1, ns - 1)), (min(1, ns - 1), ns), (0, 1)}:
+        if k0 >= k1:
+            continue
+        A = assemble.bsp_mixed_deriv_biform_1d_asym(K1, K2, 0, 0, quadgrid=mesh[k0:k1 + 1])
+        assert A.shape == (K2.numdofs, K1.numdofs), 'quadrature grid over the spans %d..%d: matrix has shape %r, documented %r' % (k0, k1, A.shape, (K2.numdofs, K1.numdofs))
+        _close(A.toarray(), oracle.biform_1d(c['kv1'], c['p1'], c['kv2'], c['p2'], 0, 0, spans=(k0, k1)), 'mass over the mesh spans %d..%d (custom quadrature grid)' % (k0, k1))
+    fine = np.sort(np.concatenate((mesh, (mesh[:-1] + mesh[1:]) / 2)))
+    _close(assemble.bsp_mixed_deriv_biform_1d_asym(K1, K2, 0, 0, quadgrid=fine).toarray(), oracle.biform_1d(c['kv1'], c['p1'], c['kv2'], c['p2'], 0, 0),
+           'mass with a refined quadrature grid')
 
 
 def chk_tp(c):
@@ -139,6 +152,16 @@ def chk_geo(c):
     bf = assemble.inner_products(kvs, fxy, f_physical=True, geo=geo)
     If = assemble.integrate(kvs, fxy, f_physical=True, geo=geo)
     assert abs(bf.sum() - If) <= 1e-10 * max(1.0, abs(If)), 'sum of the load vector %r differs from integrate() %r' % (bf.sum(), If)
+    # vector- and matrix-valued data are treated component by component (integrate() and inner_products() keep the trailing axes)
+    comps = [lambda x, y: 1.0 + 0 * x + 0 * y, lambda x, y: x + 0 * y, fxy]
+    fvec = lambda x, y: np.stack(np.broadcast_arrays(*[g(x, y) for g in comps]), axis=-1)
+    Iv = np.asarray(assemble.integrate(kvs, fvec, f_physical=True, geo=geo))
+    Is = np.array([assemble.integrate(kvs, g, f_physical=True, geo=geo) for g in comps])
+    assert Iv.shape == (3,) and np.max(np.abs(Iv - Is)) <= 1e-11 * max(1.0, np.max(np.abs(Is))), 'integrate() of vector-valued data %r differs from the component integrals %r' % (Iv, Is)
+    bv = assemble.inner_products(kvs, fvec, f_physical=True, geo=geo)
+    for j_, g in enumerate(comps):
+        bj = assemble.inner_products(kvs, g, f_physical=True, geo=geo)
+        assert bv.shape == bj.shape + (3,) and np.max(np.abs(bv[..., j_] - bj)) <= 1e-12 * max(1.0, np.max(np.abs(bj))), 'inner_products() of vector-valued data, component %d' % j_
     if c['geo'] in ('affine', 'mirrored'):
         x0, x1 = (1.0, 3.0) if c['geo'] == 'affine' else (-1.0, 1.0)
         y0, y1 = -1.0, 2.0
